@@ -488,3 +488,38 @@ func (n *Node) pruneOrphans() {
 func (n *Node) String() string {
 	return fmt.Sprintf("node{height=%d tip=%s mempool=%d}", n.Tip().Height, n.Tip().Hash.String()[:8], len(n.Mempool))
 }
+
+// SpentBy returns the transaction (best chain or mempool) that spends op.
+func (n *Node) SpentBy(op wire.OutPoint) (chainhash.Hash, bool) {
+	if h, ok := n.chainSpent[op]; ok {
+		return h, true
+	}
+	if h, ok := n.poolSpent[op]; ok {
+		return h, true
+	}
+	return chainhash.Hash{}, false
+}
+
+// TxOut returns the output an outpoint refers to (nil if the node never saw
+// the transaction).
+func (n *Node) TxOut(op wire.OutPoint) *wire.TxOut {
+	tx := n.txByID[op.Hash]
+	if tx == nil || int(op.Index) >= len(tx.TxOut) {
+		return nil
+	}
+	return tx.TxOut[op.Index]
+}
+
+// IsCoinbase reports whether the transaction with that id is a coinbase.
+func (n *Node) IsCoinbase(id chainhash.Hash) bool {
+	tx := n.txByID[id]
+	return tx != nil && isCoinbase(tx)
+}
+
+// Known reports whether the transaction is in the best chain or the mempool.
+func (n *Node) Known(id chainhash.Hash) bool {
+	if _, ok := n.confirmed[id]; ok {
+		return true
+	}
+	return n.inPool[id]
+}
